@@ -132,20 +132,22 @@ pub fn judge_pair(world: &World, victim: usize, prev: &[u8], cur: &[u8], dp: &De
 
 struct Harvest {
     world: World,
-    victim_prev: Vec<(BlobId, Vec<u8>, Rc<Dec>)>,
+    /// (victim peer index, data it holds in some run)
+    victim_prev: Vec<(usize, BlobId, Vec<u8>, Rc<Dec>)>,
     all: Vec<(BlobId, Vec<u8>, Rc<Dec>)>,
 }
 
 fn harvest(s: &Script, tier: Tier) -> Harvest {
     let world = World::new(s, &["O"], "particle-1");
-    let cfg = Cfg { state_cap: if tier == Tier::Quick { 6000 } else { 60000 }, stop_at_first_violation: false, dup: false, ..Default::default() };
+    let cfg = Cfg { state_cap: if tier == Tier::Quick { 6000 } else { 60000 }, stop_at_first_violation: false, dup: tier == Tier::Thorough, ..Default::default() };
     let ex = netmc::explore(world, &cfg, &mut Noop);
-    // previous data the victim (peer 0) holds in some run, and every blob of the graph
-    let mut pv: BTreeSet<BlobId> = BTreeSet::new();
+    // previous data each honest peer (every participant but the equivocator M) holds in some run, and every
+    // blob of the graph
+    let mut pv: BTreeSet<(usize, BlobId)> = BTreeSet::new();
     for r in &ex.cx.runs {
-        if r.peer == 0 {
-            pv.insert(r.prev);
-            pv.insert(r.out);
+        if ex.cx.world.peers[r.peer].name != "M" && r.peer < ex.cx.world.nact {
+            pv.insert((r.peer, r.prev));
+            pv.insert((r.peer, r.out));
         }
     }
     let get = |b: BlobId| -> Option<(BlobId, Vec<u8>, Rc<Dec>)> {
@@ -154,7 +156,7 @@ fn harvest(s: &Script, tier: Tier) -> Harvest {
         }
         ex.cx.dec(b).map(|d| (b, ex.cx.bytes(b).to_vec(), d))
     };
-    let victim_prev: Vec<_> = pv.into_iter().filter_map(get).collect();
+    let victim_prev: Vec<_> = pv.into_iter().filter_map(|(p, b)| get(b).map(|(b, y, d)| (p, b, y, d))).collect();
     let all: Vec<_> = (1..ex.cx.blobs.len() as BlobId).filter_map(get).collect();
     let world = World::new(s, &["O"], "particle-1");
     Harvest { world, victim_prev, all }
@@ -164,7 +166,7 @@ pub fn check_c15(tier: Tier) -> Report {
     let mut rep = Report::new("C15", "fault_enumeration");
     rep.assumptions = vec![
         "forks are pairs of data from different branches of one explored schedule graph (the equivocating peer re-runs from an earlier state and signs both result sets); every data is honestly produced and signed by the real interpreter".into(),
-        "the victim is the init peer A; it merges every data it can hold with every data of the graph, with no call results".into(),
+        "victims are the honest peers A and B; each merges every data it can hold with every data of the graph, with no call results".into(),
         "the expected verdict is computed by the harness from the decoded traces and stores (per-peer multisets of call and canon result ids)".into(),
     ];
     let mut evals = 0u64;
@@ -189,13 +191,13 @@ pub fn check_c15(tier: Tier) -> Report {
                     let stride = if tier == Tier::Quick { (h.victim_prev.len() * h.all.len() / 25000).max(1) } else { 1 };
                     let mut k = 0usize;
                     let mut seen_sig = BTreeSet::new();
-                    for (pb, pbytes, pd) in &h.victim_prev {
+                    for (vp, pb, pbytes, pd) in &h.victim_prev {
                         for (cb, cbytes, cd) in &h.all {
                             k += 1;
                             if k % stride != 0 {
                                 continue;
                             }
-                            let pv = judge_pair(&h.world, 0, pbytes, cbytes, pd, cd);
+                            let pv = judge_pair(&h.world, *vp, pbytes, cbytes, pd, cd);
                             e += 1;
                             *cs.entry(pv.ret_code).or_insert(0) += 1;
                             if pv.incomparable {
@@ -211,8 +213,8 @@ pub fn check_c15(tier: Tier) -> Report {
                                 if seen_sig.insert(sig.clone()) {
                                     v.push(Violation {
                                         signature: sig,
-                                        description: format!("script {}: previous data #{pb}, current data #{cb}: {d}", s.name),
-                                        replay: json!({"engine": "fork", "script": serde_json::to_value(s).unwrap(), "prev": crate::worker::hex(pbytes), "cur": crate::worker::hex(cbytes)}),
+                                        description: format!("script {}: victim {}, previous data #{pb}, current data #{cb}: {d}", s.name, h.world.peers[*vp].name),
+                                        replay: json!({"engine": "fork", "script": serde_json::to_value(s).unwrap(), "victim": vp, "prev": crate::worker::hex(pbytes), "cur": crate::worker::hex(cbytes)}),
                                     });
                                 }
                             }
@@ -249,7 +251,7 @@ pub fn check_c15(tier: Tier) -> Report {
     rep.cov("ret_codes", json!(codes_seen.iter().map(|(k, v)| (k.to_string(), *v)).collect::<BTreeMap<_, _>>()));
     rep.cov("scripts", json!(per_script));
     rep.cov("exhaustive", json!(per_script.iter().all(|i| i["pair_stride"].as_u64() == Some(1))));
-    rep.cov("rule", json!("for each FORK script the schedule graph is explored (no duplication, state cap) and every (data the victim can hold, any data of the graph) pair is merged by the victim (quick tier: every k-th pair so that about 25000 pairs per script are merged; the stride is in the evidence); expected: some peer's result multisets incomparable => preparation error and the previous data returned byte for byte; all nested => never the inconsistent-multisets error and, when the run returns new data, every other peer's signature is the one from the input that carried its larger multiset; non-trivial = pairs with an incomparable peer"));
+    rep.cov("rule", json!("for each FORK script the schedule graph is explored (no duplication, state cap) and every (data an honest peer can hold, any data of the graph) pair is merged by that peer (quick tier: every k-th pair so that about 25000 pairs per script are merged; the stride is in the evidence); expected: some peer's result multisets incomparable => preparation error and the previous data returned byte for byte; all nested => never the inconsistent-multisets error and, when the run returns new data, every other peer's signature is the one from the input that carried its larger multiset; non-trivial = pairs with an incomparable peer"));
     rep.cov("samples", json!(samples));
     if incomparable == 0 || nested == 0 {
         rep.machinery_errors.push("vacuous: no incomparable or no nested pair was produced".into());
@@ -263,8 +265,9 @@ pub fn replay(v: &Value) -> i32 {
     let (prev, cur) = (crate::worker::unhex(v["prev"].as_str().unwrap_or("")), crate::worker::unhex(v["cur"].as_str().unwrap_or("")));
     let (Ok(dp), Ok(dc)) = (crate::data::decode(&prev), crate::data::decode(&cur)) else { return 2 };
     let want = v["signature"].as_str().unwrap_or("");
-    let a = judge_pair(&world, 0, &prev, &cur, &dp, &dc);
-    let b = judge_pair(&world, 0, &prev, &cur, &dp, &dc);
+    let victim = v["victim"].as_u64().unwrap_or(0) as usize;
+    let a = judge_pair(&world, victim, &prev, &cur, &dp, &dc);
+    let b = judge_pair(&world, victim, &prev, &cur, &dp, &dc);
     if a.viols != b.viols {
         println!("REPLAY-NONDETERMINISTIC");
         return 2;
